@@ -8,8 +8,10 @@ import (
 	"fmt"
 	"os"
 	"sort"
+	"runtime"
 	"strings"
 	"sync"
+	"sync/atomic"
 	"testing"
 	"testing/synctest"
 	"time"
@@ -64,10 +66,14 @@ const (
 	kLinkLocal
 	kPubTCP6
 	kDNSAddr // /dnsaddr name whose TXT record carries the address with a /p2p/<peer> suffix
+	// the shadowing rules are per transport family: the same IP and port NUMBER on the other layer-4
+	// protocol shadows nothing
+	kWSOnQUICPort // ws on the ip and port number of a quic-v1 (udp) entry, no tcp entry there: dialled
+	kWTOnTCPPort  // webtransport on the ip and port number of a tcp entry, no quic-v1 entry there: dialled
 	nKinds
 )
 
-var kindNames = [...]string{"priv-tcp", "pub-tcp", "pub-quic", "priv-quic", "pub-wt", "wt-shadow", "ws", "ws-shadow", "relay", "dns", "no-transport", "unspecified", "link-local", "pub-tcp6", "dnsaddr"}
+var kindNames = [...]string{"priv-tcp", "pub-tcp", "pub-quic", "priv-quic", "pub-wt", "wt-shadow", "ws", "ws-shadow", "relay", "dns", "no-transport", "unspecified", "link-local", "pub-tcp6", "dnsaddr", "ws-on-quic-port", "wt-on-tcp-port"}
 
 type outcome struct {
 	O        scripted.Outcome
@@ -95,6 +101,8 @@ type callerSpec struct {
 	start       time.Duration // offset within the round
 	cancelAt    time.Duration // 0: never
 	deadline    time.Duration // 0: none (relative to start)
+	// preEnded: the caller's context is already over when it calls DialPeer ("cancelled" or "expired")
+	preEnded string
 	forceDirect bool
 	simConnect  bool
 	peerTimeout time.Duration // 0: default 60s
@@ -107,6 +115,29 @@ type scenario struct {
 	gap            time.Duration // between rounds
 	closeBetween   bool
 	closes         [2][]closeSpec // connections to a peer killed while a round is running
+	// workerExit: what a dial worker does between noticing that its last caller left and cleaning up
+	// after itself (schedule point dialWorker:exiting, build tag verif): 0 nothing, < 0 that many
+	// yields, > 0 a pause in virtual time. A new worker for the same peer can be at work meanwhile.
+	workerExit time.Duration
+}
+
+// workerExitDelay is what the installed schedule-point function does for the running case.
+var workerExitDelay atomic.Int64
+
+func init() {
+	swarm.VerifSetYield(func(point string) {
+		if point != "dialWorker:exiting" {
+			return
+		}
+		switch d := workerExitDelay.Load(); {
+		case d > 0:
+			time.Sleep(time.Duration(d))
+		case d < 0:
+			for i := d; i < 0; i++ {
+				runtime.Gosched()
+			}
+		}
+	})
 }
 
 type closeSpec struct {
@@ -120,7 +151,7 @@ func drawAddrs(rt *rapid.T, pi int) []*addrSpec {
 	n := rapid.IntRange(0, 7).Draw(rt, "naddrs")
 	var out []*addrSpec
 	for k := 0; k < n; k++ {
-		kind := addrKind(rapid.SampledFrom([]int{0, 1, 1, 2, 2, 3, 4, 5, 6, 7, 8, 8, 9, 10, 11, 12, 13, 14, 14}).Draw(rt, "kind"))
+		kind := addrKind(rapid.SampledFrom([]int{0, 1, 1, 2, 2, 3, 4, 5, 6, 7, 8, 8, 9, 10, 11, 12, 13, 14, 14, 15, 16}).Draw(rt, "kind"))
 		a := &addrSpec{kind: kind}
 		mk := func(s string) ma.Multiaddr { return ma.StringCast(s) }
 		switch kind {
@@ -161,6 +192,26 @@ func drawAddrs(rt *rapid.T, pi int) []*addrSpec {
 				a.stored, a.fd = mk(fmt.Sprintf("/ip4/1.%d.2.%d/tcp/4001/ws", pi, k+1)), true
 			} else {
 				a.stored, a.filtered = q.stored.Encapsulate(mk("/ws")), true
+			}
+		case kWSOnQUICPort:
+			a.kind = kWS
+			a.stored, a.fd = mk(fmt.Sprintf("/ip4/1.%d.2.%d/tcp/4001/ws", pi, k+1)), true
+			for _, o := range out {
+				if o.kind == kPubQUIC || o.kind == kPrivQUIC {
+					ip, _ := o.stored.ValueForProtocol(ma.P_IP4)
+					a.kind = kWSOnQUICPort
+					a.stored = mk(fmt.Sprintf("/ip4/%s/tcp/4001/%s", ip, rapid.SampledFrom([]string{"ws", "wss"}).Draw(rt, "wsform")))
+				}
+			}
+		case kWTOnTCPPort:
+			a.kind = kPubWT
+			a.stored = mk(fmt.Sprintf("/ip4/1.%d.4.%d/udp/4001/quic-v1/webtransport", pi, k+1))
+			for _, o := range out {
+				if o.kind == kPubTCP || o.kind == kPrivTCP {
+					ip, _ := o.stored.ValueForProtocol(ma.P_IP4)
+					a.kind = kWTOnTCPPort
+					a.stored = mk(fmt.Sprintf("/ip4/%s/udp/4001/quic-v1/webtransport", ip))
+				}
 			}
 		case kRelay:
 			a.stored, a.relay = mk(fmt.Sprintf("/ip4/2.%d.0.%d/tcp/4001/p2p/%s/p2p-circuit", pi, k+1, relayID)), true
@@ -228,6 +279,7 @@ func drawScenario(rt *rapid.T) *scenario {
 		perPeer: rapid.SampledFrom([]int{1, 2, 8}).Draw(rt, "perPeer"),
 		fdCap:   rapid.SampledFrom([]int{1, 2, 160}).Draw(rt, "fdCap"),
 	}
+	sc.workerExit = rapid.SampledFrom([]time.Duration{0, 0, 0, -3, -40, time.Microsecond, time.Millisecond, 50 * time.Millisecond}).Draw(rt, "workerExit")
 	np := rapid.IntRange(1, 3).Draw(rt, "npeers")
 	for pi := 0; pi < np; pi++ {
 		sc.addrs = append(sc.addrs, drawAddrs(rt, pi))
@@ -246,6 +298,10 @@ func drawScenario(rt *rapid.T) *scenario {
 					cs.cancelAt = cs.start + time.Duration(rapid.SampledFrom([]int{0, 2, 7, 35, 120, 320, 1500, 9000}).Draw(rt, "cancel"))*time.Millisecond + 2500*time.Microsecond
 				case 1:
 					cs.deadline = time.Duration(rapid.SampledFrom([]int{1, 30, 250, 1000, 8000}).Draw(rt, "deadline"))*time.Millisecond + 2500*time.Microsecond
+				case 2:
+					if rapid.IntRange(0, 1).Draw(rt, "preEnded?") == 0 {
+						cs.preEnded = rapid.SampledFrom([]string{"cancelled", "expired"}).Draw(rt, "preEnded")
+					}
 				}
 				cs.forceDirect = rapid.IntRange(0, 4).Draw(rt, "forceDirect") == 0
 				for _, a := range sc.addrs[pi] {
@@ -331,6 +387,11 @@ func runScenario(t *testing.T, rt *rapid.T, name string, sc *scenario) {
 		swarm.DefaultPerPeerRateLimit = sc.perPeer
 		os.Setenv("LIBP2P_SWARM_FD_LIMIT", fmt.Sprint(sc.fdCap))
 		defer func() { swarm.DefaultPerPeerRateLimit = oldPP; os.Unsetenv("LIBP2P_SWARM_FD_LIMIT") }()
+		workerExitDelay.Store(int64(sc.workerExit))
+		defer workerExitDelay.Store(0)
+		if sc.workerExit != 0 {
+			labels["dial-worker-lingers-before-cleaning-up"] = true
+		}
 
 		local := keys.Ed(0)
 		ps, err := pstoremem.NewPeerstore()
@@ -427,6 +488,14 @@ func runScenario(t *testing.T, rt *rapid.T, name string, sc *scenario) {
 						tm := time.AfterFunc(cs.cancelAt-cs.start, cancel)
 						defer tm.Stop()
 					}
+					switch cs.preEnded {
+					case "cancelled":
+						cancel()
+					case "expired":
+						var c3 context.CancelFunc
+						ctx, c3 = context.WithDeadline(ctx, time.Now().Add(-time.Second))
+						defer c3()
+					}
 					if cs.forceDirect {
 						ctx = network.WithForceDirectDial(ctx, "test")
 					}
@@ -494,6 +563,13 @@ func runScenario(t *testing.T, rt *rapid.T, name string, sc *scenario) {
 			if n := w.InFlight(); n != 0 {
 				rt.Fatalf("round %d: %d transport dials still running although every caller has returned:\n%s", round, n, dumpDials(w, t0))
 			}
+			// O10: no dial worker is left once all callers returned (a worker that survives its callers keeps
+			// their address bookkeeping and serves later callers from it)
+			time.Sleep(200 * time.Millisecond) // a worker told to linger at its exit gets the time
+			synctest.Wait()
+			if n, where := dialWorkersAlive(); n != 0 {
+				rt.Fatalf("round %d: %d dial worker goroutine(s) still alive although every caller has returned:\n%s\n%s", round, n, dumpDials(w, t0), where)
+			}
 			checkRound(rt, sc, round, results, w, t0, labels, &nontrivial)
 			probeTokens(rt, sc, sw, ps, w, round)
 			if round == 0 {
@@ -533,6 +609,8 @@ func runScenario(t *testing.T, rt *rapid.T, name string, sc *scenario) {
 			}
 		}
 		sw.Close()
+		time.Sleep(200 * time.Millisecond) // workers told to linger at their exit finish inside the bubble
+		synctest.Wait()
 		for _, cr := range all {
 			abstract = append(abstract, fmt.Sprintf("r%d p%d s%v c%v d%v fd%v -> %s", cr.round, cr.spec.peer, cr.spec.start, cr.spec.cancelAt, cr.spec.deadline, cr.spec.forceDirect, outcomeOf(cr)))
 		}
@@ -597,7 +675,7 @@ func checkRound(rt *rapid.T, sc *scenario, round int, results []*callResult, w *
 		}
 	}
 	fail := func(format string, args ...any) {
-		rt.Fatalf("round %d: %s\ncaps perPeer=%d fd=%d\naddrs %s\ncallers %s\ndials:\n%s", round, fmt.Sprintf(format, args...), sc.perPeer, sc.fdCap,
+		rt.Fatalf("round %d: %s\ncaps perPeer=%d fd=%d workerExit=%v\naddrs %s\ncallers %s\ndials:\n%s", round, fmt.Sprintf(format, args...), sc.perPeer, sc.fdCap, sc.workerExit,
 			describeAddrs(sc), describeCallers(results, t0), dumpDials(w, t0))
 	}
 	// O5: concurrency caps, measured inside the transport
@@ -864,6 +942,10 @@ func checkRound(rt *rapid.T, sc *scenario, round int, results []*callResult, w *
 				if cr.spec.cancelAt > 0 {
 					want = t0.Add(cr.spec.cancelAt)
 				}
+				if cr.spec.preEnded != "" {
+					want = cr.start
+					labels["caller-ctx-over-before-the-call"] = true
+				}
 				if cr.spec.deadline > 0 {
 					if d := cr.start.Add(cr.spec.deadline); want.IsZero() || d.Before(want) {
 						want = d
@@ -1078,4 +1160,26 @@ func TestRankerPermutation(t *testing.T) {
 			stats.Sample(name, ks)
 		}
 	})
+}
+
+// dialWorkersAlive counts the goroutines running a swarm dial worker loop (from the goroutine dump:
+// there is no API for it; one test runs at a time in the process).
+func dialWorkersAlive() (int, string) {
+	buf := make([]byte, 1<<20)
+	for {
+		n := runtime.Stack(buf, true)
+		if n < len(buf) {
+			buf = buf[:n]
+			break
+		}
+		buf = make([]byte, 2*len(buf))
+	}
+	n, where := 0, ""
+	for _, g := range strings.Split(string(buf), "\n\n") {
+		if strings.Contains(g, "swarm.(*dialWorker).loop(") {
+			n++
+			where += g + "\n\n"
+		}
+	}
+	return n, where
 }
